@@ -23,7 +23,7 @@ func verifLang(k int) syntax.LangVariant {
 	}
 }
 
-var verifReserved = [...]string{"!", "[[", "]]", "case", "coproc", "do", "done", "elif", "else", "esac", "fi", "for", "function", "if", "in", "select", "then", "time", "until", "while", "{", "}"}
+var verifReserved = [...]string{"!", "[[", "]]", "case", "coproc", "do", "done", "elif", "else", "esac", "fi", "for", "function", "if", "in", "let", "select", "then", "time", "until", "while", "{", "}"}
 
 // Verif_c13_quote: Quote(s) parses as one literal/quoted word that expands
 // back to s; Quote fails only for strings the variant cannot represent.
@@ -70,6 +70,12 @@ func Verif_c13_quote() {
 		return
 	}
 	verifAssert(!hasNul, "Quote accepted a string containing NUL")
+	// listed known finding: "let" comes back unquoted, and a lone "let" is a
+	// syntax error for this parser in every variant that knows the builtin
+	if verifKnown("C13-let-unquoted", s == "let" && langK != 1) {
+		verifReach("end")
+		return
+	}
 	f, perr := syntax.NewParser(syntax.Variant(lang)).Parse(strings.NewReader(q), "")
 	verifAssert(perr == nil, "quoted string does not parse")
 	if perr != nil {
